@@ -8,14 +8,38 @@ GEN = os.path.join(checklib.LEAN, "Ecal", "Gen", "C08.lean")
 
 
 def decode(p):
+    if p == "TABLES":
+        return {"report": "hypothesis RP.tablesAgree"}
     if p.startswith("FMT "):
         return {"format_tool_tree_variant": p[4:]}
     f = p.split(" ", 2)
     try:
         return {"source": bytes.fromhex(f[0]).decode("utf8", "replace") if f[0] != "-" else "",
-                "evaluated": f[1] == "1", "ast_fields": len(f[2].split(" "))}
+                "evaluated": f[1] in ("1", "3"), "format_tool_run": f[1] in ("2", "3"), "ast_fields": len(f[2].split(" "))}
     except Exception:
         return p[:200]
+
+
+def _strip_parens(hex_txt):
+    if hex_txt == "-":
+        return b""
+    try:
+        return bytes.fromhex(hex_txt).replace(b"(", b"").replace(b")", b"")
+    except ValueError:
+        return hex_txt.encode()
+
+
+def equal(g, m, attrs):
+    """Result lines agree if every verdict agrees and the printed texts are equal — or differ only in parentheses
+    (string literals are canonicalised on both sides, so no parenthesis is inside a literal). Which redundant
+    parentheses the printer writes is not constrained by the property; whether they are SUFFICIENT is decided by
+    Go's own re-parse (rt) and by the sufficiency fact about the extracted rule."""
+    if g == m:
+        return True
+    gf, mf = g.split(" "), m.split(" ")
+    if len(gf) != len(mf) or not gf[0].startswith("txt=") or not mf[0].startswith("txt=") or gf[1:] != mf[1:]:
+        return False
+    return _strip_parens(gf[0][4:]) == _strip_parens(mf[0][4:])
 
 
 def extract(ctx):
@@ -51,6 +75,13 @@ def post(ctx, cases, gores, model):
     xc = sum(1 for i in model if model[i][1].get("xc") == "1")
     ctx.coverage["expression_model_cross_checked"] = xc
     ctx.coverage["text_identical"] = sum(1 for i in cases if gores.get(i, "").split(" ")[0] == model.get(i, ("", {}))[0].split(" ")[0])
+    for i in model:
+        if "tables_agree" in model[i][1]:
+            ctx.coverage["parser_model_table_agrees"] = model[i][1]["tables_agree"] == "true"
+            if model[i][1]["tables_agree"] != "true":
+                ctx.notes.append("Parser.lean's hand-copied operator table does not agree number by number with the table regenerated "
+                                 "from parser.go: the theorems on Ecal.Parse.run (print_parse_expr_real_parser_partial) do not speak "
+                                 "about this tree in this run (hypothesis RP.tablesAgree is false); nothing else depends on it")
     if xc == 0:
         ctx.notes.append("no case was cross-checked against the expression-level model (operator table drifted?)")
 
@@ -59,6 +90,7 @@ SPEC = dict(
     lean_modules=["Ecal.Props.C08"],
     shards=16,
     extract=extract,
+    equal=equal,
     post=post,
     rule=("cases = sources the real parser accepts, handed to the model as the AST the real parser built: corpus of past "
           "failures; every infix operator (20) / prefix operator (3) under every other on either side with and without "
@@ -73,13 +105,14 @@ SPEC = dict(
         "the AST handed to the printer model is the one the real parser built (serialised by reflection incl. binding / left denotation); the correspondence run does not use the Lean lexer/parser models",
         "quote_lex_roundtrip and parser_reads_* are about Ecal.Lex.lexValue / Ecal.Parse.run (Lexer.lean, Parser.lean); the tie of those models to lexer.go / parser.go is the correspondence run of C18 / C07, not of this check",
         "Ecal.Print.isPrint consults a table regenerated from strconv.IsPrint of the Go toolchain in use (lean/Ecal/Gen/C08Print.lean); quote_lex_roundtrip does not depend on it (it holds for every predicate that is false on the newline)",
-        "tool.FormatFiles: tested only (file bytes = PrettyPrint text + newline on parseable sources, other extension untouched); unparseable files, sub-directories, symlinked roots, file modes and write errors are not exercised",
+        "tool.FormatFiles / Format: tested only. ff (about every 3rd case): the file is left unchanged or parses to a tree equal to the original modulo the known local differences — never text that does not parse (counted: format-tool.UNPARSEABLE-TEXT-WRITTEN, format-tool.file-left-unchanged); fmt (8 variants of a directory tree): unparseable / empty / CRLF files, a file whose printed text does not parse, sub-directory, other extension, absolute symlink, -help; the mode check can only fail for a tool that rewrites through a temporary file (WriteFile does not chmod an existing file); write errors are not exercised",
         "rt/idem/beh are computed by the real parser, printer and interpreter; the tree equality (names, values, nesting, raw-vs-interpolating kind; ignores positions, comments, blank lines) is implemented in the harness",
-        "go/ast extractor (harness C08 -tool gen) translating ppNeedsBrackets (control flow: if / switch / early returns / set literals / inlined helpers; the recursive helper ppIsProductChain stays an opaque node predicate, modelled by hand), astNodeMap, ndPrefix, the templates of prettyPrinterMap and the multi-line thresholds into lean/Ecal/Gen/C08.lean; the printer models RUN the extracted rule, templates and thresholds (hand copies only as fallback when the extractor does not understand the source)",
+        "printed texts are compared with string literals in canonical spelling (hex of the value the literal lexes back to, on both sides) and modulo parentheses (SPEC equal): which escapes and which redundant parentheses the printer writes is not constrained by the property; whether parentheses suffice is decided by Go's own re-parse and by the sufficiency fact",
+        "go/ast extractor (harness C08 -tool gen; astNodeMap as positional or keyed literals, otherwise the operator table is obtained by probing the real parser with `a OP b` / `OP a`) translating ppNeedsBrackets (control flow: if / switch / early returns / set literals / inlined helpers; the recursive helper ppIsProductChain stays an opaque node predicate, modelled by hand), astNodeMap, ndPrefix, the templates of prettyPrinterMap and the multi-line thresholds into lean/Ecal/Gen/C08.lean; the printer models RUN the extracted rule, templates and thresholds (hand copies only as fallback when the extractor does not understand the source)",
         "theorems are about the expression-level model and the string-literal model; statements, comments and blank lines are covered by the correspondence run only",
     ],
     assumptions=[
-        "no rt verdict is predicted for the structurally defined class newline-inside-statement: a /* */ comment in front of a token that does not start its statement, a blank line directly behind the keyword of a return statement, a bare return used as an operand, a composition access [..] behind a call/access of the same identifier chain whose text spans lines (x := a([1,2,3,4,5])[0]), a # comment unless it sits on an identifier/number leaf and is printed directly behind that token at the end of a line",
+        "no rt verdict is predicted for the structurally defined class newline-inside-statement: a /* */ comment in front of a token that does not start its statement, a blank line directly behind the keyword of a return statement, a bare return that is not a statement (operand, list element, call argument — here the text may not even parse: `[return` NEWLINE `]` is printed `[return]`), a composition access [..] behind a call/access of the same identifier chain whose text spans lines (x := a([1,2,3,4,5])[0]), a # comment unless it sits on an identifier/number leaf and is printed directly behind that token at the end of a line",
         "no idem verdict is predicted for the class layout-not-idempotent: the class above, any /* */ comment, a blank line in front of a token that does not start its statement or in front of an infix operator, a mutex/sink statement followed by a statement without a blank line before it",
         "consequence: the comment / blank-line dimension of the quantifier is essentially unverified for rt (848 quick cases) and idem (1446 quick cases) — text fidelity of the printer model is checked there, Go's verdicts are only counted",
         "inside the classes with a definite rt=diff (raw-string-kind, mul-right-brackets) the trees must agree modulo the known local difference (eqm=ok: raw flag ignored, product spliced into the left spine of its right operand) and behaviour must be preserved unless a raw string contains {{, or (mul-right-brackets) the original itself raises an error / has side effects, where re-association may change which error is raised first; stmt-starts-with-sign and bare-return-at-end predict the exact verdicts",
